@@ -836,3 +836,380 @@ Proof.
   destruct (sstep_l Sz st op) as [st' out]. specialize (IH st').
   destruct (srun_l_from Sz st' ops) as [h st'']. cbn in *. rewrite IH. reflexivity.
 Qed.
+
+(* ---------------------------------------------------------------- panics *)
+Lemma cid_read_no_panic Sz bs : 32 <= Sz -> cid_read_bytes Sz bs <> RPanic.
+Proof.
+  intros HS. unfold cid_read_bytes.
+  destruct (uv_decode bs) as [ver r1| | |]; try discriminate.
+  destruct (uv_decode r1) as [codec r2| | |]; try discriminate.
+  destruct ((ver =? 18) && (codec =? 32)).
+  - destruct (take 32 r2); [|discriminate]. destruct (Sz <? 32) eqn:E; [lia|discriminate].
+  - destruct (version_of_u64 ver) as [[|]|]; try discriminate.
+    destruct (uv_decode r2) as [code r3| | |]; try discriminate.
+    destruct (uv_decode r3) as [size r4| | |]; try discriminate.
+    destruct ((Sz <? size) || (255 <? size)); [discriminate|].
+    destruct (take size r4); discriminate.
+Qed.
+
+Lemma full_yield_no_panic Sz es : 32 <= Sz -> forall n, full_yield Sz n es <> None.
+Proof.
+  intros HS. induction es as [|e es IH]; intros n; cbn [full_yield]; [discriminate|].
+  destruct (n =? 0); [discriminate|]. destruct (e_cancel e); [apply IH|].
+  pose proof (cid_read_no_panic Sz (e_block e) HS) as Hp.
+  destruct (cid_read_bytes Sz (e_block e)); [|apply IH|congruence].
+  specialize (IH (n - 1)). destruct (full_yield Sz (n - 1) es); [discriminate|congruence].
+Qed.
+
+Lemma upd_parse_no_panic Sz es : 32 <= Sz -> upd_parse Sz es <> None.
+Proof.
+  intros HS. induction es as [|e es IH]; cbn [upd_parse]; [discriminate|].
+  pose proof (cid_read_no_panic Sz (e_block e) HS) as Hp.
+  destruct (cid_read_bytes Sz (e_block e)); [|apply IH|congruence].
+  destruct (upd_parse Sz es); [discriminate|congruence].
+Qed.
+
+Lemma process_wantlist_no_panic Sz old w : 32 <= Sz -> process_wantlist Sz old w <> PwPanic.
+Proof.
+  intros HS. unfold process_wantlist. destruct (w_full w).
+  - pose proof (full_yield_no_panic Sz (w_entries w) HS MAX) as H.
+    destruct (full_yield Sz MAX (w_entries w)); [discriminate|congruence].
+  - pose proof (upd_parse_no_panic Sz (w_entries w) HS) as H.
+    destruct (upd_parse Sz (w_entries w)) as [pes|]; [|congruence].
+    destruct (upd_cancel _ old []) as [s1 removed]. destruct (upd_add _ s1 []) as [s2 added]. discriminate.
+Qed.
+
+Lemma do_poll_panic st : s_panic (fst (do_poll st)) = s_panic st.
+Proof.
+  unfold do_poll.
+  pose proof (fold_run_task_frame (s_ready st)
+    (MkS (s_wants st) (s_waiting st) (s_outq st) [] (s_blocked st) (s_next_call st) (s_panic st) (s_bad_order st)) [])
+    as (_ & _ & Hp & _).
+  cbn zeta in Hp. destruct (fold_left run_task (s_ready st) _) as [st1 out1]. cbn [fst s_panic] in Hp.
+  unfold update_handlers. destruct (fold_left uh_block (s_outq st1) _) as [[wants wt] bat]. cbn. exact Hp.
+Qed.
+
+Lemma sstep_l_no_panic Sz st op : 32 <= Sz -> s_panic st = false -> s_panic (fst (sstep_l Sz st op)) = false.
+Proof.
+  intros HS Hp. unfold sstep_l. rewrite Hp. destruct op as [p|p w order|bl|p|k r|]; cbn [fst].
+  - unfold new_connection. destruct (alookup N.eqb p (s_wants st)); assumption.
+  - unfold process_incoming_message. destruct (alookup N.eqb p (s_wants st)) as [old|]; [|assumption].
+    pose proof (process_wantlist_no_panic Sz old w HS). destruct (process_wantlist Sz old w); [congruence|assumption].
+  - assumption.
+  - unfold peer_disconnected. destruct (alookup N.eqb p (s_wants st)); assumption.
+  - unfold release. destruct (alookup N.eqb k (s_blocked st)) as [[c t]|]; assumption.
+  - rewrite do_poll_panic. assumption.
+Qed.
+
+Lemma sstep_l_panicked Sz st op : s_panic st = true -> sstep_l Sz st op = (st, []).
+Proof. intros H. unfold sstep_l. rewrite H. reflexivity. Qed.
+
+Lemma srun_l_from_panicked Sz ops : forall st, s_panic st = true -> snd (srun_l_from Sz st ops) = st.
+Proof.
+  induction ops as [|op ops IH]; intros st H; cbn [srun_l_from]; [reflexivity|].
+  rewrite (sstep_l_panicked _ _ _ H). specialize (IH st H). destruct (srun_l_from Sz st ops). exact IH.
+Qed.
+
+Lemma srun_l_no_panic Sz ops : 32 <= Sz -> s_panic (snd (srun_l Sz ops)) = false.
+Proof.
+  intros HS. induction ops as [|op ops IH] using rev_ind; [reflexivity|].
+  rewrite srun_l_snoc. cbn [snd]. apply sstep_l_no_panic; assumption.
+Qed.
+
+(* a run whose final state has not panicked never panicked *)
+Lemma srun_l_snoc_panic Sz ops op :
+  s_panic (snd (srun_l Sz (ops ++ [op]))) = false -> s_panic (snd (srun_l Sz ops)) = false.
+Proof.
+  rewrite srun_l_snoc. cbn [snd]. destruct (s_panic (snd (srun_l Sz ops))) eqn:E; [|reflexivity].
+  rewrite (sstep_l_panicked _ _ _ E). cbn. congruence.
+Qed.
+
+(* ---------------------------------------------------------------- want-set keys = connected peers *)
+Lemma fold_uh_keys q : forall acc,
+  map fst (fst (fst (fold_left uh_block q acc))) = map fst (fst (fst acc)).
+Proof.
+  induction q as [|b q IH]; intros acc; cbn [fold_left]; [reflexivity|]. rewrite IH.
+  destruct acc as [[wants wt] bat]. unfold uh_block.
+  destruct (alookup cid_eqb (fst b) wt); cbn [fst]; [apply fold_want_remove_keys|reflexivity].
+Qed.
+
+Lemma do_poll_keys st : map fst (s_wants (fst (do_poll st))) = map fst (s_wants st).
+Proof.
+  unfold do_poll.
+  pose proof (fold_run_task_frame (s_ready st)
+    (MkS (s_wants st) (s_waiting st) (s_outq st) [] (s_blocked st) (s_next_call st) (s_panic st) (s_bad_order st)) [])
+    as (Hw & _).
+  cbn zeta in Hw. destruct (fold_left run_task (s_ready st) _) as [st1 out1]. cbn [fst s_wants] in Hw.
+  unfold update_handlers.
+  pose proof (fold_uh_keys (s_outq st1) (s_wants st1, s_waiting st1, [])) as Hk.
+  destruct (fold_left uh_block (s_outq st1) _) as [[wants wt] bat]. cbn in *. congruence.
+Qed.
+
+Lemma adel_keys_filter {V} p (m : list (N * V)) :
+  map fst (adel N.eqb p m) = filter (fun q => negb (q =? p)) (map fst m).
+Proof.
+  unfold adel. induction m as [|[k v] m IH]; cbn; [reflexivity|].
+  rewrite (N.eqb_sym k p). destruct (p =? k); cbn; rewrite IH; reflexivity.
+Qed.
+
+Lemma filter_notin p (l : list N) : ~ In p l -> filter (fun q => negb (q =? p)) l = l.
+Proof.
+  induction l as [|x l IH]; cbn; [reflexivity|]. intros H.
+  destruct (x =? p) eqn:E; [exfalso; apply H; left; lia|]. cbn. rewrite IH; tauto.
+Qed.
+
+Lemma existsb_keys {V} p (m : list (N * V)) :
+  existsb (N.eqb p) (map fst m) = match alookup N.eqb p m with Some _ => true | None => false end.
+Proof. induction m as [|[k v] m IH]; cbn; [reflexivity|]. destruct (p =? k); cbn; auto. Qed.
+
+Lemma step_keys Sz st op :
+  s_panic st = false ->
+  map fst (s_wants (fst (sstep_l Sz st op))) = conn_op (map fst (s_wants st)) op.
+Proof.
+  intros Hp. unfold sstep_l. rewrite Hp. destruct op as [p|p w order|bl|p|k r|]; cbn [fst conn_op].
+  - unfold new_connection. rewrite existsb_keys. destruct (alookup N.eqb p (s_wants st)); [reflexivity|].
+    cbn. rewrite map_app. reflexivity.
+  - unfold process_incoming_message. destruct (alookup N.eqb p (s_wants st)) as [old|] eqn:E; [|reflexivity].
+    destruct (process_wantlist Sz old w); [reflexivity|]. cbn [s_wants].
+    apply (keys_aset_present N.eqb). rewrite E. discriminate.
+  - reflexivity.
+  - unfold peer_disconnected. destruct (alookup N.eqb p (s_wants st)) as [old|] eqn:E.
+    + cbn [s_wants]. apply adel_keys_filter.
+    + symmetry. apply filter_notin. apply (alookup_None N.eqb Neqb_spec). assumption.
+  - destruct (release_frame st k r) as [-> _]. reflexivity.
+  - apply do_poll_keys.
+Qed.
+
+Lemma connected_snoc ops op : connected (ops ++ [op]) = conn_op (connected ops) op.
+Proof. unfold connected. rewrite fold_left_app. reflexivity. Qed.
+
+Lemma keys_connected Sz ops :
+  s_panic (snd (srun_l Sz ops)) = false -> map fst (s_wants (snd (srun_l Sz ops))) = connected ops.
+Proof.
+  induction ops as [|op ops IH] using rev_ind; intros Hp; [reflexivity|].
+  pose proof (srun_l_snoc_panic _ _ _ Hp) as Hp0. rewrite srun_l_snoc. cbn [snd].
+  rewrite step_keys by assumption. rewrite IH by assumption. symmetry. apply connected_snoc.
+Qed.
+
+Lemma conn_op_notin p cs op : ~ In p cs -> op <> SNewConn p -> ~ In p (conn_op cs op).
+Proof.
+  intros Hni Hop. destruct op as [q| | |q| |]; cbn [conn_op]; try assumption.
+  - destruct (existsb (N.eqb q) cs); [assumption|]. rewrite in_app_iff. cbn.
+    intros [H|[H|[]]]; [contradiction|subst; congruence].
+  - rewrite filter_In. tauto.
+Qed.
+
+Lemma connected_released ops1 p ops2 :
+  (forall op, In op ops2 -> op <> SNewConn p) -> ~ In p (connected (ops1 ++ SDisconnected p :: ops2)).
+Proof.
+  intros Hno. unfold connected. rewrite fold_left_app. cbn [fold_left].
+  set (cs := conn_op (fold_left conn_op ops1 []) (SDisconnected p)).
+  assert (Hcs : ~ In p cs).
+  { unfold cs. cbn [conn_op]. rewrite filter_In. intros [_ H]. rewrite N.eqb_refl in H. discriminate. }
+  clearbody cs. revert cs Hcs. induction ops2 as [|op ops IH]; intros cs Hcs; cbn [fold_left]; [assumption|].
+  apply IH.
+  - intros op' Hin. apply Hno. right. assumption.
+  - apply conn_op_notin; [assumption|]. apply Hno. left. reflexivity.
+Qed.
+
+(* ---------------------------------------------------------------- anatomy of one poll *)
+Lemma hits_In res c d : In (c, d) (hits res) <-> In (c, SHit d) res.
+Proof.
+  induction res as [|[c0 r0] res IH]; cbn [hits]; [cbn; tauto|].
+  destruct r0 as [d0| |]; cbn; rewrite ?IH; intuition congruence.
+Qed.
+
+Definition is_get (o : lout) : Prop := exists k c, o = LGet k c.
+
+(* what polling the ready tasks does: finished tasks append their hits to the queue, the others
+   start one get each and park *)
+Definition finished_hits (ready : list task) : list (cid * bytes) :=
+  flat_map (fun t => match t_todo t with [] => hits (t_done t) | _ => [] end) ready.
+
+Lemma fold_run_task_outq ready : forall st out,
+  s_outq (fst (fold_left run_task ready (st, out))) = s_outq st ++ finished_hits ready.
+Proof.
+  induction ready as [|t ready IH]; intros st out; cbn [fold_left finished_hits flat_map].
+  - cbn. rewrite app_nil_r. reflexivity.
+  - destruct (t_todo t) as [|c rest] eqn:Et.
+    + rewrite (run_task_nil _ _ _ Et), IH. cbn [s_outq]. rewrite app_assoc. reflexivity.
+    + rewrite (run_task_cons _ _ _ _ _ Et), IH. reflexivity.
+Qed.
+
+Lemma fold_run_task_out_mono ready : forall st out o,
+  In o out -> In o (snd (fold_left run_task ready (st, out))).
+Proof.
+  induction ready as [|t ready IH]; intros st out o Ho; cbn [fold_left]; [assumption|].
+  destruct (t_todo t) as [|c rest] eqn:Et.
+  - rewrite (run_task_nil _ _ _ Et). apply IH, Ho.
+  - rewrite (run_task_cons _ _ _ _ _ Et). apply IH. rewrite in_app_iff. auto.
+Qed.
+
+Lemma fold_run_task_out_gets ready : forall st out o,
+  In o (snd (fold_left run_task ready (st, out))) -> In o out \/ is_get o.
+Proof.
+  induction ready as [|t ready IH]; intros st out o; cbn [fold_left]; [auto|].
+  destruct (t_todo t) as [|c rest] eqn:Et.
+  - rewrite (run_task_nil _ _ _ Et). apply IH.
+  - rewrite (run_task_cons _ _ _ _ _ Et). intros H. apply IH in H. destruct H as [H|H]; [|auto].
+    rewrite in_app_iff in H. cbn in H. destruct H as [H|[<-|[]]]; [auto|]. right. eexists _, _. reflexivity.
+Qed.
+
+Lemma fold_run_task_blocked_old ready : forall st out x,
+  In x (s_blocked st) -> In x (s_blocked (fst (fold_left run_task ready (st, out)))).
+Proof.
+  induction ready as [|t ready IH]; intros st out x Hx; cbn [fold_left]; [assumption|].
+  destruct (t_todo t) as [|c rest] eqn:Et.
+  - rewrite (run_task_nil _ _ _ Et). apply IH. assumption.
+  - rewrite (run_task_cons _ _ _ _ _ Et). apply IH. cbn [s_blocked]. rewrite in_app_iff. auto.
+Qed.
+
+(* every unfinished ready task ends up parked, with the results it already had *)
+Lemma fold_run_task_blocked_new ready : forall st out t c rest,
+  In t ready -> t_todo t = c :: rest ->
+  exists k, In (k, (c, MkTask (t_peer t) (t_done t) rest))
+               (s_blocked (fst (fold_left run_task ready (st, out)))).
+Proof.
+  induction ready as [|t0 ready IH]; intros st out t c rest Hin Et; cbn [fold_left]; [destruct Hin|].
+  destruct Hin as [->|Hin].
+  - rewrite (run_task_cons _ _ _ _ _ Et). exists (s_next_call st).
+    apply fold_run_task_blocked_old. cbn [s_blocked]. rewrite in_app_iff. cbn. auto.
+  - destruct (t_todo t0) as [|c0 rest0] eqn:Et0.
+    + rewrite (run_task_nil _ _ _ Et0). eapply IH; eassumption.
+    + rewrite (run_task_cons _ _ _ _ _ Et0). eapply IH; eassumption.
+Qed.
+
+(* every parked task was parked before or comes from a ready task that started the get just now *)
+Lemma fold_run_task_blocked_inv ready : forall st out k c t',
+  In (k, (c, t')) (s_blocked (fst (fold_left run_task ready (st, out)))) ->
+  In (k, (c, t')) (s_blocked st) \/
+  (exists t, In t ready /\ t_todo t = c :: t_todo t' /\ t_done t' = t_done t /\ t_peer t' = t_peer t /\
+             In (LGet k c) (snd (fold_left run_task ready (st, out)))).
+Proof.
+  induction ready as [|t ready IH]; intros st out k c t'; cbn [fold_left]; [auto|].
+  destruct (t_todo t) as [|c0 rest] eqn:Et.
+  - rewrite (run_task_nil _ _ _ Et). intros H. apply IH in H. cbn [s_blocked] in H.
+    destruct H as [H|(t0 & Ht0 & Hx)]; [auto|]. right. exists t0. cbn [In]. tauto.
+  - rewrite (run_task_cons _ _ _ _ _ Et). intros H. apply IH in H. cbn [s_blocked] in H.
+    destruct H as [H|(t0 & Ht0 & Hx)].
+    + rewrite in_app_iff in H. cbn [In] in H. destruct H as [H|[H|[]]]; [auto|].
+      injection H as <- <- <-. right. exists t. cbn [t_todo t_done t_peer In].
+      repeat split; auto. apply fold_run_task_out_mono. rewrite in_app_iff. cbn. auto.
+    + right. exists t0. cbn [In]. tauto.
+Qed.
+
+Lemma fold_run_task_calls ready : forall st out,
+  s_next_call st <= s_next_call (fst (fold_left run_task ready (st, out))).
+Proof.
+  induction ready as [|t ready IH]; intros st out; cbn [fold_left]; [cbn; lia|].
+  destruct (t_todo t) as [|c0 rest] eqn:Et.
+  - rewrite (run_task_nil _ _ _ Et). etransitivity; [|apply IH]. cbn. lia.
+  - rewrite (run_task_cons _ _ _ _ _ Et). etransitivity; [|apply IH]. cbn. lia.
+Qed.
+
+Definition poll_start (st : sstate) : sstate :=
+  MkS (s_wants st) (s_waiting st) (s_outq st) [] (s_blocked st) (s_next_call st) (s_panic st) (s_bad_order st).
+
+Definition send_of (pb : peer * list (cid * bytes)) : lout := LSend (fst pb) (snd pb).
+
+Lemma do_poll_spec st :
+  Inv st ->
+  exists st1 out1 wants' wt' bat,
+    fold_left run_task (s_ready st) (poll_start st, []) = (st1, out1) /\
+    do_poll st = (MkS wants' wt' [] [] (s_blocked st1) (s_next_call st1) (s_panic st) (s_bad_order st),
+                  out1 ++ map send_of bat) /\
+    UH (s_wants st) (s_outq st ++ finished_hits (s_ready st)) (wants', wt', bat) /\
+    (forall o, In o out1 -> is_get o).
+Proof.
+  intros (H1 & H2 & H3). unfold do_poll. fold (poll_start st).
+  pose proof (fold_run_task_frame (s_ready st) (poll_start st) []) as (Hf1 & Hf2 & Hf3 & Hf4 & Hf5).
+  pose proof (fold_run_task_outq (s_ready st) (poll_start st) []) as Hq.
+  pose proof (fold_run_task_out_gets (s_ready st) (poll_start st) []) as Hg.
+  cbn zeta in *.
+  destruct (fold_left run_task (s_ready st) (poll_start st, [])) as [st1 out1].
+  cbn [fst snd poll_start s_wants s_waiting s_panic s_bad_order s_ready s_outq] in *.
+  unfold update_handlers.
+  pose proof (UH_fold (s_wants st1) (s_outq st1) [] _ (UH_init (s_wants st1) (s_waiting st1)
+     ltac:(rewrite Hf1; exact H1) ltac:(rewrite Hf2; exact H2) ltac:(rewrite Hf1, Hf2; exact H3))) as HU.
+  destruct (fold_left uh_block (s_outq st1) (s_wants st1, s_waiting st1, [])) as [[wants' wt'] bat].
+  exists st1, out1, wants', wt', bat. split; [reflexivity|]. split.
+  - rewrite Hf3, Hf4, Hf5. reflexivity.
+  - split.
+    + cbn [app] in HU. rewrite Hf1, Hq in HU. exact HU.
+    + intros o Ho. destruct (Hg o Ho) as [[]|H]. exact H.
+Qed.
+
+(* ---------------------------------------------------------------- wants = sview *)
+Lemma option_map_id {A} (v : option A) : option_map (fun x => x) v = v.
+Proof. destruct v; reflexivity. Qed.
+
+Lemma sview_out_gets p outs : forall v, (forall o, In o outs -> is_get o) -> fold_left (sview_out p) outs v = v.
+Proof.
+  induction outs as [|o outs IH]; intros v H; cbn [fold_left]; [reflexivity|].
+  destruct (H o (or_introl eq_refl)) as (k & c & ->). cbn [sview_out]. apply IH.
+  intros o' Ho'. apply H. right. assumption.
+Qed.
+
+Lemma sview_out_sends p bat : forall v,
+  bsorted bat -> fold_left (sview_out p) (map send_of bat) v = option_map (rm_blocks (bget p bat)) v.
+Proof.
+  induction bat as [|[k l] bat IH]; intros v Hs; cbn [map fold_left].
+  - unfold bget. cbn. destruct v; reflexivity.
+  - destruct Hs as [Hk Hs]. cbn [send_of sview_out fst snd]. rewrite IH by assumption.
+    unfold bget at 2. cbn [alookup]. rewrite (N.eqb_sym p k). destruct (k =? p) eqn:E.
+    + assert (k = p) by lia. subst k.
+      assert (alookup N.eqb p bat = None) as Hn.
+      { apply (alookup_None N.eqb Neqb_spec). intros Hin. specialize (Hk _ Hin). lia. }
+      unfold bget. rewrite Hn. destruct v; reflexivity.
+    + reflexivity.
+Qed.
+
+Lemma sstep_l_view Sz st op p :
+  Inv st -> s_panic (fst (sstep_l Sz st op)) = false ->
+  alookup N.eqb p (s_wants (fst (sstep_l Sz st op))) =
+  sview_step Sz p (alookup N.eqb p (s_wants st)) (op, snd (sstep_l Sz st op)).
+Proof.
+  intros HI Hp'. unfold sview_step. cbn [fst snd].
+  assert (Hp : s_panic st = false).
+  { destruct (s_panic st) eqn:E; [|reflexivity]. rewrite (sstep_l_panicked _ _ _ E) in Hp'. cbn in Hp'. congruence. }
+  unfold sstep_l in *. rewrite Hp in *.
+  destruct op as [q|q w order|bl|q|k r|]; cbn [fst snd fold_left sview_op] in *.
+  - unfold new_connection. destruct (q =? p) eqn:E.
+    + assert (q = p) by lia. subst q. destruct (alookup N.eqb p (s_wants st)) eqn:El; [assumption|].
+      cbn [s_wants]. rewrite (alookup_app N.eqb), El. cbn. rewrite N.eqb_refl. reflexivity.
+    + destruct (alookup N.eqb q (s_wants st)) eqn:El; [reflexivity|].
+      cbn [s_wants]. rewrite (alookup_app N.eqb). destruct (alookup N.eqb p (s_wants st)); [reflexivity|].
+      cbn. rewrite (N.eqb_sym p q), E. reflexivity.
+  - unfold process_incoming_message in *. destruct (q =? p) eqn:E.
+    + assert (q = p) by lia. subst q. destruct (alookup N.eqb p (s_wants st)) as [old|] eqn:El; [|rewrite El; reflexivity].
+      destruct (process_wantlist Sz old w) as [|new adds rems] eqn:Epw; [cbn in Hp'; discriminate|].
+      cbn [s_wants option_map]. rewrite nset_eq.
+      destruct HI as ((_ & Hs) & _). destruct (Hs _ _ El) as [Hnd Hlen].
+      destruct (process_wantlist_spec _ _ _ _ _ _ Hnd Hlen Epw) as [_ ->]. reflexivity.
+    + destruct (alookup N.eqb q (s_wants st)) as [old|] eqn:El; [|reflexivity].
+      destruct (process_wantlist Sz old w) as [|new adds rems] eqn:Epw; [reflexivity|].
+      cbn [s_wants]. apply nset_neq. lia.
+  - reflexivity.
+  - unfold peer_disconnected. destruct (q =? p) eqn:E.
+    + assert (q = p) by lia. subst q. destruct (alookup N.eqb p (s_wants st)) eqn:El; [|assumption].
+      cbn [s_wants]. apply ndel_eq.
+    + destruct (alookup N.eqb q (s_wants st)) eqn:El; [|reflexivity]. cbn [s_wants]. apply ndel_neq. lia.
+  - destruct (release_frame st k r) as [-> _]. reflexivity.
+  - destruct (do_poll_spec st HI) as (st1 & out1 & wants' & wt' & bat & _ & Hdp & HU & Hg).
+    rewrite Hdp. cbn [fst snd s_wants]. rewrite fold_left_app, (sview_out_gets p out1 _ Hg).
+    rewrite sview_out_sends by (apply (uh_sorted _ _ _ HU)).
+    apply (uh_wants _ _ _ HU).
+Qed.
+
+Lemma sview_snoc Sz p hist h : sview Sz p (hist ++ [h]) = sview_step Sz p (sview Sz p hist) h.
+Proof. unfold sview. rewrite fold_left_app. reflexivity. Qed.
+
+Lemma wants_sview Sz ops p :
+  s_panic (snd (srun_l Sz ops)) = false ->
+  alookup N.eqb p (s_wants (snd (srun_l Sz ops))) = sview Sz p (fst (srun_l Sz ops)).
+Proof.
+  induction ops as [|op ops IH] using rev_ind; intros Hp; [reflexivity|].
+  pose proof (srun_l_snoc_panic _ _ _ Hp) as Hp0. rewrite srun_l_snoc in *. cbn [fst snd] in *.
+  rewrite sview_snoc, <- IH by assumption.
+  apply sstep_l_view; [|assumption]. apply srun_l_from_inv, sinit_inv.
+Qed.
